@@ -90,7 +90,8 @@ def run(ctx):
             parts.append((cur, ln))
             cur += ln + rng.choice([0, 0, 1])
         cyl = max(cur, 3521 // cb + 2)
-        cases.append(("PART:%d:%d:%d:%s" % (cyl, heads, sect, ";".join("%d,%d" % p for p in parts)), rng.choice(flavs), rng.choice(names[:5])))
+        cases.append(("PART:%d:%d:%d:%s" % (cyl, heads, sect, ";".join("%d,%d" % p for p in parts)),
+                      tuple(rng.choice(flavs) for _ in parts) if rng.random() < 0.8 else rng.choice(flavs), rng.choice(names[:5])))
     for (kind, flav, name) in cases:
         if kind.startswith("PART"):
             _, cyl, heads, sect, ps = kind.split(":")
@@ -119,13 +120,14 @@ def run(ctx):
             li = marks[vi]
             m = common.kv((res.get(li) or ["?"])[0])
             vname = name + bytes([49 + vi]) if kind.startswith("PART") else name
-            exp_free, pages, exts = expected_free(n, flav)
+            vflav = flav[vi] if isinstance(flav, tuple) else flav
+            exp_free, pages, exts = expected_free(n, vflav)
             if m[0] != "ok":
                 ctx.fail("oracle", "freshly created volume cannot be mounted", inp, expected="ok", actual=res.get(li))
                 continue
             d = m[1]
             got = (int(d["first"]), int(d["last"]), int(d["root"]), int(d["dostype"]))
-            want = (first, first + n - 1, n // 2, flav)
+            want = (first, first + n - 1, n // 2, vflav)
             if got != want:
                 ctx.fail("oracle", "mounted volume has a different block range / root / flavour than requested", inp, expected=list(want), actual=list(got))
             if not kind.startswith("PART") and kind.startswith("HF") is False and d.get("name") != hexs(vname[:30]):
@@ -142,9 +144,9 @@ def run(ctx):
             if not dec["ok"]:
                 ctx.fail("oracle", "image of a fresh volume is not well formed: %s" % hist.DECODE_CODES.get(dec["code"], ("", "?"))[1], inp, expected="decodes", actual=dec["raw"])
             else:
-                if dec["free"] != exp_free or dec["bmpages"] != pages or dec["bmexts"] != exts or dec["tree"] or dec["flavour"] != flav or dec["volname"] != hexs(vname[:30]):
+                if dec["free"] != exp_free or dec["bmpages"] != pages or dec["bmexts"] != exts or dec["tree"] or dec["flavour"] != vflav or dec["volname"] != hexs(vname[:30]):
                     ctx.fail("oracle", "decoded fresh volume differs from the request", inp,
-                             expected={"free": exp_free, "pages": pages, "exts": exts, "name": hexs(vname[:30]), "flavour": flav},
+                             expected={"free": exp_free, "pages": pages, "exts": exts, "name": hexs(vname[:30]), "flavour": vflav},
                              actual={k2: dec[k2] for k2 in ("free", "bmpages", "bmexts", "volname", "flavour")})
         try:
             os.unlink(os.path.join(wd, "img"))
